@@ -318,6 +318,8 @@ type sDest struct {
 	ackOnly  bool
 	nackPlan map[int]bool // fixed outcome per record index (nil: chosen)
 	batchAcks bool // one Ack response confirms every record written so far
+	ackGap    bool // batch mode: the first record after the head of a response is left out
+	gapDone   bool
 	slow     bool // answers only once the rest of the pipeline is idle
 	opened   int
 	tornDown int
@@ -409,7 +411,11 @@ func (d *sDest) Ack(ctx context.Context) ([]connector.DestinationAck, error) {
 	if d.batchAcks {
 		// a destination that confirms everything written so far in one response
 		if !verifSymbolic() {
-			time.Sleep(5 * time.Millisecond)
+			if d.ackGap {
+				time.Sleep(70 * time.Millisecond) // let three writes accumulate
+			} else {
+				time.Sleep(5 * time.Millisecond)
+			}
 		}
 		w.mu.Lock()
 		defer w.mu.Unlock()
@@ -418,6 +424,12 @@ func (d *sDest) Ack(ctx context.Context) ([]connector.DestinationAck, error) {
 		for more := true; more; {
 			select {
 			case r2 := <-d.pending:
+				if d.ackGap && !d.gapDone {
+					// a misbehaving destination: this record is silently left out of the
+					// response (never confirmed), later ones are still confirmed
+					d.gapDone = true
+					continue
+				}
 				acks = append(acks, connector.DestinationAck{Position: r2.Position})
 				d.acked[sIdx(r2.Position)] = true
 			default:
@@ -527,6 +539,7 @@ type sCfg struct {
 	symOps         bool  // each record's operation is chosen (create / snapshot)
 	ackOnly        bool  // destinations acknowledge everything
 	batchAcks      bool  // destinations confirm everything written so far in one response
+	ackGap         bool  // ... leaving one record out of a multi-ack response
 	nackPlans      []map[int]bool // per destination: fixed outcome per record (nil: chosen)
 	procPlan       map[int]int    // fixed processor result kind per record (nil: chosen)
 }
@@ -591,6 +604,7 @@ func buildPipeline(c sCfg) *sPipeline {
 		d.allowMis = c.badDest
 		d.ackOnly = c.ackOnly
 		d.batchAcks = c.batchAcks
+		d.ackGap = c.ackGap
 		if m < len(c.nackPlans) {
 			d.nackPlan = c.nackPlans[m]
 		}
